@@ -253,11 +253,11 @@ pub fn generate(seed: u64, tier: Tier) -> Case {
     // Rebuild history: the project changes (items and modules come and go) and is built again
     // into the output directory the first build left behind.
     let mut worlds = vec![world];
-    let mut chain = vec![];
+    let mut chain: Vec<(usize, usize)> = vec![];
     if params.collision.is_none() && rng.chance(1, 3) {
         let mut p2 = p.clone();
         for _ in 0..rng.range(1, 3) {
-            match rng.below(4) {
+            match rng.below(5) {
                 0 => {
                     // Drop items nobody mentions.
                     let mut mentioned = BTreeSet::new();
@@ -300,6 +300,37 @@ pub fn generate(seed: u64, tier: Tier) -> Case {
                     if free.len() >= 1 && p2.modules.iter().filter(|m| !m.deleted).count() > 1 {
                         let m = *rng.pick(&free);
                         p2.modules[m].deleted = true;
+                    }
+                }
+                3 => {
+                    // Same shape, different numbers: addresses of functions and extern values,
+                    // enum values (the output keeps its line count, its content changes).
+                    for it in p2.items.iter_mut() {
+                        match &mut it.kind {
+                            ItemKind::Type { impl_funcs, singleton, .. } => {
+                                for f in impl_funcs.iter_mut() {
+                                    if let Some(a) = &mut f.address {
+                                        *a += 0x10;
+                                    }
+                                }
+                                if let Some(a) = singleton {
+                                    *a += 0x100;
+                                }
+                            }
+                            ItemKind::Enum { variants, .. } => {
+                                if let Some((_, Some(v), _)) = variants.last_mut() {
+                                    *v += 1;
+                                }
+                            }
+                            _ => {}
+                        }
+                    }
+                    for m in p2.modules.iter_mut() {
+                        for ev in m.extern_values.iter_mut() {
+                            if let Some(a) = &mut ev.address {
+                                *a += 8;
+                            }
+                        }
                     }
                 }
                 _ => {
@@ -368,6 +399,25 @@ pub fn generate(seed: u64, tier: Tier) -> Case {
             repeat: 1,
         })
         .collect();
+    // Reference builds: the same input built into an empty output directory. What a build
+    // writes must not depend on what was in the output directory before.
+    let mut builds: Vec<BuildSpec> = builds;
+    let n = builds.len();
+    for bi in 0..n {
+        let w = worlds[builds[bi].world].clone();
+        let dirty = !w.pre_out.is_empty() || params.chain.iter().any(|(x, _)| *x == bi);
+        if dirty && rng.chance(1, 2) {
+            let mut r = w;
+            r.pre_out.clear();
+            r.out_exists = true;
+            r.out_is_file = false;
+            worlds.push(r);
+            let mut b = builds[bi].clone();
+            b.world = worlds.len() - 1;
+            builds.push(b);
+            params.notes.push("env:reference_build_into_empty_dir".into());
+        }
+    }
     Case {
         property: "C14".into(),
         family: family.into(),
@@ -722,6 +772,37 @@ pub fn evaluate(case: &Case, results: &[Vec<RunResult>], report: &mut CaseReport
                             return Verdict::violation(class, format!("build {bi}: {detail}"))
                         }
                     }
+                }
+            }
+        }
+    }
+    // Builds of the same input must write the same bytes, whatever the output directory held.
+    let key = |w: &World| {
+        crate::rng::hash_str(
+            w.pointer_size as u64,
+            &serde_json::to_string(&(&w.input, &w.in_dir)).unwrap(),
+        )
+    };
+    for (a, ra) in results.iter().enumerate() {
+        for (b, rb) in results.iter().enumerate().skip(a + 1) {
+            let (wa, wb) = (&case.worlds[case.builds[a].world], &case.worlds[case.builds[b].world]);
+            if key(wa) != key(wb) {
+                continue;
+            }
+            let (Some(ra), Some(rb)) = (ra.last(), rb.last()) else {
+                continue;
+            };
+            if !ra.outcome.succeeded() || !rb.outcome.succeeded() {
+                continue;
+            }
+            report.count("oracle:compared_with_build_into_other_output_state", 1);
+            for (rel, _) in wa.module_files() {
+                let out = format!("{}.rs", rel.trim_end_matches(".pyxis"));
+                if ra.files().get(out.as_str()) != rb.files().get(out.as_str()) {
+                    return Verdict::violation(
+                        "output-depends-on-pre-existing-output-state",
+                        format!("{out} differs between build {a} and build {b} of the same input"),
+                    );
                 }
             }
         }
